@@ -529,13 +529,15 @@ func runC11Compose(t *testing.T, c simrt.Chooser, o Opts) *Out {
 			out.violate("C11.errors", sig+"/other", "argv %v: unexpected error record %q", w.Argv, e.Err)
 		}
 	}
-	for a, n := range wantErr {
+	for _, a := range sortedKeys(wantErr) {
+		n := wantErr[a]
 		if gotErr[a] != n {
 			out.violate("C11.errors", sig+"/count", "argv %v: %d probes to %s have no MAC (no cache entry, no gateway MAC) but %d error records name it", w.Argv, n, a, gotErr[a])
 			break
 		}
 	}
-	for a, n := range gotErr {
+	for _, a := range sortedKeys(gotErr) {
+		n := gotErr[a]
 		if wantErr[a] == 0 {
 			out.violate("C11.errors", sig+"/spurious", "argv %v: %d 'no MAC' errors for %s, which has a MAC (%s) or is not a target", w.Argv, n, a, model[ipU32(a)])
 			break
